@@ -20,7 +20,10 @@ dt   = float(open(ffp).read().splitlines()[1].split()[1])                       
 values = np.atleast_1d(data.astype(float))
 ```
 (the `except TypeError` fallback for numpy 1.19 is dead code on the pinned numpy 2.5: (G) does not raise
-`TypeError` there).  (G) runs before (D), so an exception of (G) wins.
+`TypeError` there).  The steps run in the order (G), (D), `data.astype(float)`, and the first exception wins
+(`loadL`): every cell-conversion error belongs to (G) (`genfromtxtData`); the only exception of the last step is
+the `TypeError` of `.astype(float)` on a 0-field dtype (`astypeFloat`), which therefore comes AFTER the errors of
+(D) [observed: a file containing `"lab\n\t\n"` raises the `IndexError` of (D), `"lab\n1 2 #\t\n"` the `TypeError`].
 
 **Line structure.** Both `open(ffp)` calls use universal newlines: `\r\n` and a lone `\r` become `\n`
 (`universalNewlines`).  (G) iterates over *file lines* (`fileLines`: split at `\n` only), whereas (D) and the
@@ -197,6 +200,30 @@ def findNames : List (List Char) → Option (Bool × List (List Char))
 def dataCells (ls : List (List Char)) : List (List Char) :=
   (ls.map dataContent).filter (fun c => !c.isEmpty) |>.map (fun c => c.takeWhile (fun ch => !isComma ch))
 
+/-- the array `np.genfromtxt(ffp, skip_header=1, delimiter=",", names=True, usecols=0)` returns (all its exceptions included):
+    `some vals` — a dtype with a field, cells converted (`ValueError` for an unparsable cell);
+    `none` — the 0-field dtype with no data row (an empty structured array; with ≥ 1 data row `ValueError`) -/
+def genfromtxtData (flines : List (List Char)) : Except ErrKind (Option (List Rat)) :=
+  match flines with
+  | [] => .error .IndexError                      -- `next(fhd)` in the skip loop: StopIteration → `first_values[0]`
+  | _ :: rest =>
+    match findNames rest with
+    | none => .error .IndexError                  -- no names line: `first_values = []`, `first_values[0]`
+    | some (hasField, rows) =>
+      let cells := dataCells rows
+      if hasField then
+        match cells.mapM pyFloat with
+        | .error e => .error e
+        | .ok vals => .ok (some vals)
+      else if cells.isEmpty then .ok none
+      else .error .ValueError                        -- tuple of length 1 into a structure with 0 fields
+
+/-- `np.atleast_1d(data.astype(float))`: `TypeError` on the 0-field dtype, otherwise the values -/
+def astypeFloat : Option (List Rat) → Except ErrKind (List Rat)
+  | some vals => .ok vals
+  | none => .error .TypeError
+
+/-- (G) followed directly by `data.astype(float)` (the two steps without (D) in between; see `loadL` for the real order) -/
 def genfromtxtCol0 (flines : List (List Char)) : Except ErrKind (List Rat) :=
   match flines with
   | [] => .error .IndexError                      -- `next(fhd)` in the skip loop: StopIteration → `first_values[0]`
@@ -219,14 +246,19 @@ def headerDt (lines : List (List Char)) : Except ErrKind Rat :=
     | _ => .error .IndexError
   | _ => .error .IndexError
 
+/-- `load_values_and_dt` on the decoded file content, in the order of the code: (G) `np.genfromtxt`, (D) the `dt` token,
+    then `np.atleast_1d(data.astype(float))`; the first exception wins -/
 def loadL (cs : List Char) : Except ErrKind (List Rat × Rat) :=
   let t := universalNewlines cs
-  match genfromtxtCol0 (fileLines t) with
+  match genfromtxtData (fileLines t) with
   | .error e => .error e
-  | .ok vals =>
+  | .ok data =>
     match headerDt (pySplitlines t) with
     | .error e => .error e
-    | .ok dt => .ok (vals, dt)
+    | .ok dt =>
+      match astypeFloat data with
+      | .error e => .error e
+      | .ok vals => .ok (vals, dt)
 
 /-- exact-decimal model of `load_values_and_dt(ffp)` on a file whose decoded content is `text` -/
 def loadText (text : String) : Except ErrKind (List Rat × Rat) := loadL text.toList
